@@ -88,7 +88,7 @@ VH_GROUP(seeds)
         sv.name = s.name; sv.bytes = &s.bytes; sv.path = file.path;
         sv.expected = &s.expected; sv.expected_alt = &s.expected_alt; sv.exp_channels = s.channels; sv.exp_w = s.w; sv.exp_h = s.h;
         sv.aux1 = s.prop("pnm_type"); sv.aux2 = s.prop("maxval");
-        sv.subrects = allrect || (s.w <= 5 && s.h <= 4);
+        sv.subrects = (allrect && s.w * s.h <= 20) || (s.w <= 5 && s.h <= 4);
         // P1 rasters may omit the white space between samples (pbm(5)); GIL's text reader then parses a whole row as one
         // number and returns normally with most of the image never written -> agreement clauses would compare
         // uninitialised memory.  Only the tie to the encoder is evaluated for that seed (reported as decode!=encoder).
